@@ -13,3 +13,4 @@ import SpgProofs.Properties.C15
 #print axioms Spg.C15.no_global_or_captured_writes
 #print axioms Spg.C15.pointer_calls
 #print axioms Spg.C15.pointer_receiver_counterexample
+#print axioms Spg.C15.no_environment_inputs
